@@ -1075,8 +1075,73 @@ def run(chk: Check) -> None:
     for name, (n, d) in per_suite.items():
         chk.suite({"actor": "actor-direct", "ppo": "ppo-get-evaluate", "ippo": "ippo-get-action", "learn": "learn-reevaluation"}[name], n, d)
     note_unsupported(chk)
+    known_probes(chk)
     if chk.tier == "thorough":
         selftest(chk)
+
+
+FINDING_MASK = "C16-ppo-reevaluation-ignores-mask"
+FINDING_SCALED = "C16-actor-level-action-nonunit-bounds"
+
+
+def probe_ppo_mask(case):
+    """PPO.evaluate_actions on actions that were sampled under a mask (unchanged parameters)"""
+    idx, mask = rows_of(case)
+    obs = obs_pool(case["seed"])[idx]
+    ag = build_ppo(case)
+    torch.manual_seed(case["seed"] + 1)
+    act, lp, _e, _v = ag.get_action(obs, action_mask=mask)
+    with torch.no_grad():
+        re_lp, _, _ = ag.evaluate_actions(obs, torch.as_tensor(np.asarray(act)))
+    lp, re_lp = np.asarray(lp, dtype=np.float64), re_lp.numpy().astype(np.float64)
+    bad = [b for b in range(len(idx)) if not close(float(re_lp[b]), float(lp[b]), 1e-4)]
+    if bad:
+        b = bad[0]
+        return (f"PPO: action {np.asarray(act)[b].tolist()} sampled under mask {mask[b].astype(int).tolist()} with log_prob {lp[b]!r}; "
+                f"evaluate_actions (no mask argument, same parameters) gives {re_lp[b]!r}")
+    return None
+
+
+def probe_scaled_action(case):
+    """StochasticActor.action_log_prob on the action StochasticActor.forward returned (non-unit Box bounds, squashing)"""
+    idx, _ = rows_of(case)
+    obs = torch.as_tensor(obs_pool(case["seed"])[idx])
+    actor = build_actor(case)
+    with torch.no_grad():
+        torch.manual_seed(case["seed"] + 1)
+        a, lp, _ = actor(obs)
+        re = actor.action_log_prob(a.clone())
+    bad = [b for b in range(len(idx)) if not close(float(re[b]), float(lp[b]), 1e-3)]
+    if bad:
+        b = bad[0]
+        return (f"actor(obs) returned action {a[b].tolist()} (bounds [{case['spec']['low']},{case['spec']['high']}]) with log_prob {float(lp[b])!r}; "
+                f"action_log_prob(that action) = {float(re[b])!r}")
+    return None
+
+
+PROBES = {
+    FINDING_MASK: (probe_ppo_mask, {"suite": "probe", "spec": {"kind": "discrete", "n": 3},
+                                    "rows": [[0, [1, 0, 1]], [1, [0, 1, 1]], [2, [1, 1, 0]]], "seed": 0, "scale": 4.0}),
+    FINDING_SCALED: (probe_scaled_action, {"suite": "probe", "spec": {"kind": "box", "d": 2, "low": -2.0, "high": 2.0},
+                                           "rows": [[0, None], [1, None], [2, None]], "seed": 0, "scale": 2.0,
+                                           "squash": True, "std_init": 0.0}),
+}
+
+
+def known_probes(chk: Check) -> None:
+    """analysed defects that are not repaired by the C16 fixes: probed only when known_findings.json lists them
+    (open -> KNOWN-FINDING line, fixed -> the probe must pass); otherwise recorded as a note, never judged"""
+    listed = getattr(chk, "_known", {})
+    for fid, (fn, case) in PROBES.items():
+        try:
+            detail = fn(case)
+        except Exception as e:
+            detail = f"probe raised {type(e).__name__}: {e}"
+        if fid in listed:
+            if detail:
+                chk.finding(fid, detail, {"probe": fid, "case": case, "detail": detail})
+        else:
+            chk.notes.append(f"probe {fid} (not listed in known_findings.json, not judged): " + (detail or "passes on this tree"))
 
 
 def note_unsupported(chk: Check) -> None:
@@ -1182,6 +1247,13 @@ def replay(chk: Check, path: str) -> int:
     c = json.loads(open(path).read())
     c = c.get("replay", c)
     case = c.get("case", c)
+    if c.get("probe") in PROBES:
+        detail = PROBES[c["probe"]][0](case)
+        print(json.dumps({"probe": c["probe"], "case": case, "detail": detail}, indent=1, default=str))
+        if detail:
+            print(f"VIOLATION property=C16 replay={path}")
+            return 1
+        return 0
     diffs, problems, tags, nlines = eval_case(chk, case, 128 if case["suite"] == "actor" else 0)
     print(json.dumps({"case": case, "oracle_problems": problems[:8], "model_vs_implementation": diffs[:8],
                       "model_lines": nlines}, indent=1, default=str))
